@@ -27,6 +27,21 @@ import re
 _src = open(os.path.join(os.environ.get('VERIF_REPO', '/repo'), 'lib/Core/SQLiteBuildDB.cpp')).read()
 _m = re.search(r'static const int currentSchemaVersion = (\d+);', _src)
 SCHEMA_VERSION = _m.group(1) if _m else None      # the literal of the current source (a positive constant)
+
+def _key_type():
+    """offset and length of the declared type of key_names.key inside the CREATE TABLE literal of the current source"""
+    m = re.search(r'"(CREATE TABLE key_names \()"((?:\s*"[^"]*")+)', _src)
+    lit = m.group(1) + ''.join(re.findall(r'"([^"]*)"', m.group(2)))
+    k = re.search(r'[(,]\s*key\s+', lit)
+    off = k.end()
+    tok = re.match(r'[A-Za-z_ ]*?(?=\s+(UNIQUE|PRIMARY|NOT|DEFAULT|CHECK|COLLATE|REFERENCES)|[,)])', lit[off:]).group(0)
+    return off, len(tok)
+
+
+try:
+    KEY_OFF, KEY_LEN = _key_type()
+except Exception:
+    KEY_OFF = KEY_LEN = None
 STMTS = ['findKeyIDForKey', 'findKeyNameForKeyID', 'insertIntoKeys', 'insertIntoRuleResults', 'deleteFromKeys', 'findRuleResult', 'fastFindRuleResult', 'getKeysWithResult']
 MATCH = '(g_row_seen && g_db_version == g_current_schema_version && g_db_client == self->clientSchemaVersion)'
 UNIT = {
@@ -45,7 +60,9 @@ UNIT = {
         'o:=:@vstr': _assign_error, 'm:@vstr::c_str': 'vstr_c_str', 'fn:unlink': 'verif_unlink', 'fn:__errno_location': 'verif_errno',
         'fn:sqlite3_mprintf': 'verif_mprintf',
     },
-    'prelude': '#include "models/base.h"\n#include "models/strmodel.h"\n#include "models/sqlite_open.h"\n',
+    'prelude': '#include "models/base.h"\n#include "models/strmodel.h"\n' + ('#define KEY_TYPE_OFF %s\n#define KEY_TYPE_KEEPS_BYTES(s) (%s)\n' % (
+        KEY_OFF, ' || '.join(['0'] + ['HAS4(s, %d, %s)' % (KEY_OFF + o, w) for o in range(max((KEY_LEN or 0) - 3, 0)) for w in ("'C','H','A','R'", "'C','L','O','B'", "'T','E','X','T'", "'B','L','O','B'")])
+        + (' || 1' if KEY_LEN == 0 else ''))) + '#include "models/sqlite_open.h"\n',
     'functions': {
         'SQLiteBuildDB::open': {
             'requires': ['__CPROVER_is_fresh(self, sizeof(*self))', '__CPROVER_is_fresh(error_out, sizeof(*error_out))',
